@@ -251,6 +251,12 @@ func (r *Runner) replayCoreWith(l *Line) lineResult {
 	}
 	res.fails = w.fails
 	res.calls = w.mon.ncalls
+	if w.undoEnc > 0 {
+		if res.extra == nil {
+			res.extra = map[string]int{}
+		}
+		res.extra["undos_with_a_noncanonical_block_proof"] += w.undoEnc
+	}
 	if w.nserial > 0 {
 		if res.extra == nil {
 			res.extra = map[string]int{}
